@@ -251,6 +251,15 @@ def containerStage (br : MdBranch) (md : Md) : Except Err (ClassInfo × Text × 
     | none => .error (.missingKey (t!"contains_collection"))
     | some flag => if flag.truthy then collStage md collCls else singleStage md singleCls
   | .always collCls => collStage md collCls
+  | .alwaysPtr collCls ptrKey =>
+    -- `p_depth_element=1 if md.get(ptrKey, False) else 0`
+    match collStage md collCls with
+    | .error e => .error e
+    | .ok (ci, ct, et) =>
+      let ptr := match md.get? ptrKey with
+        | some v => v.truthy
+        | none => false
+      .ok ({ ci with depthElem := if ptr then 1 else 0 }, ct, et)
 
 def libsStage (br : MdBranch) (md : Md) : Except Err (List Text) :=
   match br.librariesKey with
